@@ -428,7 +428,7 @@ def dummy_sensor_getter(name, value=None, dtype=np.float64, timestamp=K_ts):
         if np.issubdtype(dtype, np.floating):
             value = np.dtype(dtype).type(K_float)
         elif np.issubdtype(dtype, np.integer):
-            value = np.dtype(dtype).type(K_int)
+            value = np.array(K_int).astype(dtype)[()]
         elif np.issubdtype(dtype, np.bytes_) or np.issubdtype(dtype, np.str_):
             value = K_str
         elif np.issubdtype(dtype, np.bool_):
